@@ -312,7 +312,6 @@ Section Proofs.
     destruct (c_max_blob cfg <? zlen (optb (r_val r))); [discriminate|].
     destruct (u_supply st) as [|[key created] sup] eqn:Es; [discriminate|].
     destruct (match u_faults st with [] => (false, []) | f :: fs => (f, fs) end) as [fl faults'].
-    destruct (c_chunk cfg <? zlen (optb (r_val r))); [discriminate|].
     destruct fl; [discriminate|].
     match type of H with (if ?c then _ else _) = _ => destruct c end; [discriminate|].
     match type of H with (if ?c then _ else _) = _ => destruct c end; [discriminate|].
